@@ -99,7 +99,30 @@ def withitems_rerun_concurrency():
     return None
 
 
+def jinja_context_mutation():
+    import copy
+    from mistral import expressions as expr
+    ctx = {'d': {'a': 1}, 'lst': [1, 2]}
+    before = copy.deepcopy(ctx)
+    hit = []
+    for e in ('{{ _.d.clear() }}', '{{ _.lst.append(9) }}'):
+        c = copy.deepcopy(before)
+        try:
+            expr.evaluate_recursively(e, c)
+        except Exception:
+            continue
+        if c != before:
+            hit.append(e)
+    if hit:
+        return ('jinja-context-mutation: evaluating %s modifies the context '
+                'object passed to expressions.evaluate_recursively (Jinja '
+                'runs in a non-immutable sandbox on the live context)' %
+                ' / '.join(hit))
+    return None
+
+
 SUBCHECKS = {'join-retrigger': join_retrigger,
+             'jinja-context-mutation': jinja_context_mutation,
              'withitems-rerun-concurrency': withitems_rerun_concurrency,
              'withitems-subwf-pause': withitems_subwf_pause}
 
